@@ -50,4 +50,48 @@ theorem time_advances_over_the_run (W : World) (hW : NoActions W) (hP : PosDur W
   · intro k _
     exact (run_is_merge W hW hP tl hnd (Or.inl htol) hs k).2.2
 
+/-! ### The name of a removed track is free again
+
+"removes that track only … identical to a run without the failing track" also for what follows: a track that failed
+under tolerance is gone from the list of tracks, and `schedule(..., name=…)` looks names up in that list only — so the
+corrected track scheduled under the same name (the live-coding "fix the cell and re-evaluate" step) is a NEW track,
+appended and played like any other, exactly as in a run in which the failing track never existed. -/
+
+/-- no track in the list carries the name: the lookup of `Timeline.schedule` finds nothing -/
+theorem find_name_none (ts : List Track) (nm : Nat) (h : ∀ t ∈ ts, t.name ≠ some nm) :
+    ts.find? (fun t => t.name == some nm) = none := by
+  rw [List.find?_eq_none]
+  intro t ht
+  simpa using h t ht
+
+/-- **Scheduling under a name no scheduled track carries creates a new track** (appended, with the next id), whether
+    `replace` is set or not — the timeline keeps no memory of names of tracks that left it. -/
+theorem schedule_under_free_name_adds (tl : TL) (sid : Nat) (qz dl count : Option Nat) (rwd : Bool) (nm : Nat) (replace : Bool)
+    (hfree : ∀ t ∈ tl.tracks, t.name ≠ some nm) (hroom : tl.maxTracks = 0 ∨ tl.tracks.length < tl.maxTracks) :
+    (applyOp tl (.schedule sid qz dl count rwd (some nm) replace)).res = .ok ∧
+    (applyOp tl (.schedule sid qz dl count rwd (some nm) replace)).tl.tracks =
+      tl.tracks ++ [(updateCore tl (newTrack tl.nextId (some nm) (count.getD 0) rwd) sid qz dl none).t] := by
+  have hno : ¬ (tl.maxTracks ≠ 0 ∧ tl.maxTracks ≤ tl.tracks.length) := by
+    rintro ⟨h1, h2⟩; rcases hroom with h | h <;> omega
+  simp only [applyOp, find_name_none tl.tracks nm hfree]
+  cases replace <;> simp [hno]
+
+/-- … and what it plays does not depend on who carried the name before: the new track is built from the call's
+    arguments, the timeline's time and its id counter alone (same statement for the run without the failing track). -/
+theorem schedule_under_free_name_independent (tl tl' : TL) (sid : Nat) (qz dl count : Option Nat) (rwd : Bool) (nm : Nat)
+    (replace : Bool) (hfree : ∀ t ∈ tl.tracks, t.name ≠ some nm) (hfree' : ∀ t ∈ tl'.tracks, t.name ≠ some nm)
+    (hroom : tl.maxTracks = 0 ∨ tl.tracks.length < tl.maxTracks) (hroom' : tl'.maxTracks = 0 ∨ tl'.tracks.length < tl'.maxTracks)
+    (hcore : updateCore tl (newTrack tl.nextId (some nm) (count.getD 0) rwd) sid qz dl none =
+             updateCore tl' (newTrack tl'.nextId (some nm) (count.getD 0) rwd) sid qz dl none) :
+    (applyOp tl (.schedule sid qz dl count rwd (some nm) replace)).tl.tracks.getLast? =
+    (applyOp tl' (.schedule sid qz dl count rwd (some nm) replace)).tl.tracks.getLast? := by
+  rw [(schedule_under_free_name_adds tl sid qz dl count rwd nm replace hfree hroom).2,
+      (schedule_under_free_name_adds tl' sid qz dl count rwd nm replace hfree' hroom').2, hcore]
+  simp
+
+/-- the premises are satisfiable: an empty timeline, and one whose only track carries another name -/
+example := schedule_under_free_name_adds { q := 1, tracks := [] } 0 none none none true 3 true (by simp) (Or.inl rfl)
+example := schedule_under_free_name_adds { q := 1, tracks := [{ (newTrack 0 (some 2) 0 true) with started := true }], nextId := 1 }
+  0 none none none true 3 true (by simp [newTrack]) (Or.inl rfl)
+
 end IsobarV.C17
